@@ -119,7 +119,7 @@ def handleGen (req : Lean.Json) (id : String) : IO Unit := do
       let rootN := if target = "" then rootNameOf cfg doc else target
       -- C17: how many of the documents are wire-compatible with the root type (theorem certified_yaml_json_agree)
       let wcN := (docs.filter fun dl => wcB out.decls 400 (.named rootN) (ofLean dl)).length
-      IO.println s!"{id}\tCERT\treq={certReq out.decls doc.defs 400 (.named rootN) doc.root} type={certType out.decls doc.defs 400 (.named rootN) doc.root} shape={certShape out.decls doc.defs 400 (.named rootN) doc.root} full={certFull out.decls doc.defs 400 (.named rootN) doc.root} all={certAll out.decls doc.defs 400 (.named rootN) doc.root} exact={certAll out.decls doc.defs 400 (.named rootN) doc.root && certCov out.decls doc.defs 400 (.named rootN) doc.root && topFree doc.root && doc.root.node.ref == ""} wc={wcN} flat={Props.Flat.stdCfgB cfg && Props.Flat.flatPlainB doc.root && doc.defs.isEmpty && decide (rootN = "Root")} docs={docs.length}"
+      IO.println s!"{id}\tCERT\treq={certReq out.decls doc.defs 400 (.named rootN) doc.root} type={certType out.decls doc.defs 400 (.named rootN) doc.root} shape={certShape out.decls doc.defs 400 (.named rootN) doc.root} full={certFull out.decls doc.defs 400 (.named rootN) doc.root} all={certAll out.decls doc.defs 400 (.named rootN) doc.root} exact={certAll out.decls doc.defs 400 (.named rootN) doc.root && certCov out.decls doc.defs 400 (.named rootN) doc.root && topFree doc.root && doc.root.node.ref == ""} wc={wcN} flat={Props.Flat.stdCfgB cfg && Props.Flat.flatPlainB doc.root && doc.defs.isEmpty && decide (rootN = "Root")} flatc={Props.Flat.stdCfgB cfg && Props.Flat.flatFullB doc.root && doc.defs.isEmpty && decide (rootN = "Root")} tree={Props.Flat.stdCfgB cfg && Props.Tree.treeFullB 5 doc.root && decide ((Props.Tree.scopes 5 "Root" doc.root).Nodup) && doc.defs.isEmpty && decide (rootN = "Root")} docs={docs.length}"
       let root := if target = "" then rootNameOf cfg doc else target
       let mut i := 0
       for dl in docs do
